@@ -3,10 +3,10 @@
   (pyspike/spikes.py) as generated from the source (Gen/Api.lean) against the hand-written model (Model/Api.lean).
 
   The only difference between the two is the tolerance: the source says `Eps = 1e-6`, whose value is the double
-  4722366482869645 / 2^72·… (`epsDouble`, slightly BELOW 10⁻⁶), the model says `recEps = 1/1000000`. The generated
+  4722366482869645 / 2^72 (`epsDouble`, slightly BELOW 10⁻⁶), the model says `recEps = 1/1000000`. The generated
   function is therefore first shown equal to the model with the tolerance as a parameter (`reconcileE`), for every
   non-empty list; `reconcileE epsDouble = reconcile` is then shown for every list with no spike in the two slivers
-  `(tS − 10⁻⁶, tS − epsDouble]` and `[tE + epsDouble, tE + 10⁻⁶)` (each 2.1·10⁻²³ wide).
+  `(tS − 10⁻⁶, tS − epsDouble]` and `[tE + epsDouble, tE + 10⁻⁶)` (each 4.5·10⁻²³ wide).
 -/
 import PySpikeVerif.Gen.Api
 import PySpikeVerif.Model.Api
@@ -180,6 +180,16 @@ theorem gen_reconcile_eq (L : List PyTrain) (h : L ≠ []) :
   apply List.filter_congr
   intro x _
   rw [Bool.decide_and]
+  -- the source keeps a spike that is inside the interval OR inside the tolerance band; over ℚ the first alternative
+  -- is contained in the second (the tolerance is positive) — it only matters in floating point (finding F16)
+  have hp := epsDouble_pos
+  rw [Bool.eq_iff_iff]
+  simp only [Bool.or_eq_true, Bool.and_eq_true, decide_eq_true_eq, ge_iff_le, gt_iff_lt]
+  constructor
+  · rintro (⟨a, b⟩ | hh)
+    · exact ⟨by linarith, by linarith⟩
+    · exact hh
+  · intro hh; exact Or.inr hh
 
 /-- `min([])` raises -/
 theorem gen_reconcile_nil : GenApi.reconcile_spike_trains [] = none := rfl
